@@ -227,6 +227,7 @@ def run_case(case: dict, inst: dict, seed_seq) -> dict:
     arr_call, sc_call = calls(inst)[case["fn"]]
     base, view = build_input(case, inst, rng)
     before = digest(base)
+    pristine = base.copy()   # the scalar references use the values the caller passed, whatever the call does to its array
     obs: dict = {"pressures": [float(x) for x in view], "base": [float(x) for x in base]}
     try:
         res = arr_call(view)
@@ -248,10 +249,14 @@ def run_case(case: dict, inst: dict, seed_seq) -> dict:
     errs, refs, got = [], [], []
     if res.shape == (case["n"],):
         for k, off in enumerate(case["view"]):
-            ref = float(sc_call(float(base[off - 1])))
+            ref = float(sc_call(float(pristine[off - 1])))
             refs.append(ref)
-            got.append(float(res[k]))
-            errs.append(ulps_of(res[k], ref, ulp_dt))
+            try:
+                got.append(float(res[k]))
+                errs.append(ulps_of(res[k], ref, ulp_dt))
+            except Exception:  # noqa: BLE001  (e.g. a complex or object result: not a real number at all)
+                got.append(math.nan)
+                errs.append(math.inf)
     obs["ulps"] = errs
     obs["ref"] = refs
     obs["got"] = got
